@@ -81,3 +81,31 @@ fn a_failed_insertion_does_not_bring_a_dead_token_back_to_life() {
     let t2 = el2.handle().insert_source(Flaky { fail: false }, |_, _, _| {}).unwrap();
     assert_ne!(t1, t2);
 }
+
+#[test]
+fn a_failing_enable_update_or_disable_leaves_every_source_as_it_was() {
+    struct Fd(Rc<UnixStream>);
+    impl std::os::unix::io::AsFd for Fd { fn as_fd(&self) -> std::os::unix::io::BorrowedFd<'_> { self.0.as_fd() } }
+    let mut el: EventLoop<u32> = EventLoop::try_new().unwrap();
+    let h = el.handle();
+    let (a, mut peer) = UnixStream::pair().unwrap();
+    let a = Rc::new(a);
+    // A on the fd, then disabled; B takes the same fd
+    let ta = h.insert_source(Generic::new(Fd(a.clone()), Interest::READ, Mode::Level), |_, _, n: &mut u32| { *n += 100; Ok(PostAction::Continue) }).unwrap();
+    h.disable(&ta).unwrap();
+    let tb = h.insert_source(Generic::new(Fd(a.clone()), Interest::READ, Mode::Level), |_, _, n: &mut u32| { *n += 1; Ok(PostAction::Continue) }).unwrap();
+    // enabling A must fail (the fd is taken) and must not take B's registration away
+    assert!(h.enable(&ta).is_err(), "two registrations of one fd");
+    peer.write_all(b"x").unwrap();
+    let mut n = 0;
+    el.dispatch(Duration::from_millis(100), &mut n).unwrap();
+    assert_eq!(n, 1, "a failing enable() of one source cost another source its registration");
+    // enabling an enabled source fails and leaves it enabled; a failing disable of a disabled one leaves it disabled
+    assert!(h.enable(&tb).is_err());
+    el.dispatch(Duration::from_millis(100), &mut n).unwrap();
+    assert_eq!(n, 2, "a failing enable() of an enabled source disabled it");
+    h.remove(tb);
+    h.enable(&ta).expect("the fd is free again");
+    el.dispatch(Duration::from_millis(100), &mut n).unwrap();
+    assert_eq!(n, 102);
+}
